@@ -560,11 +560,15 @@ def job_containers(ctx, k):
     cube = [g for g in G if np.allclose(rq.R(g), np.rint(rq.R(g)))]          # 24 signed permutation matrices (exact in every numeric type)
     Rc = [np.rint(rq.R(g)) for g in cube]
     gen = [rq.R(q) for q in (A.MENU[k], A.MENU[(k + 3) % 8], A.Gl(A.G120(), k)[17])]
+    Gd = rq.R(A.MENU[(k + 6) % 8])
     mat_carriers = [('float32', lambda R: R.astype(np.float32), True), ('int32', lambda R: R.astype(np.int32), True), ('int8', lambda R: R.astype(np.int8), True),
                     ('int64', lambda R: R.astype(np.int64), True), ('nested list', lambda R: [[float(x) for x in r] for r in R], False),
                     ('Fortran-ordered', lambda R: np.asfortranarray(R), False), ('transposed view', lambda R: R.T.copy().T, False),
                     ('DCM', lambda R: DCM(R.copy()), False), ('DCM(Fortran-ordered)', lambda R: DCM(np.asfortranarray(R)), False),
-                    ('DCM(transposed view)', lambda R: DCM(R.T.copy().T), False), ('strided view', lambda R: np.repeat(np.repeat(R, 2, axis=0), 2, axis=1)[::2, ::2], False)]
+                    ('DCM(transposed view)', lambda R: DCM(R.T.copy().T), False), ('strided view', lambda R: np.repeat(np.repeat(R, 2, axis=0), 2, axis=1)[::2, ::2], False),
+                    # DCM objects that NumPy derives from other DCM objects (their own elements are R)
+                    ('DCM(R^T).T', lambda R: DCM(R.T.copy()).T, False), ('DCM(G) @ DCM(G^T R)', lambda R: DCM(Gd.copy()) @ DCM(Gd.T @ R), False),
+                    ('DCM(R).copy()', lambda R: DCM(R.copy()).copy(), False), ('DCM(R)[:]', lambda R: DCM(R.copy())[:], False)]
     pairs = [(Rc[i], Rc[j], f'cube[{i}]~cube[{j}]', True) for i, j in ((0, 0), (1, 5), (7, 7), (3, 20), (11, 2), (23, 14))]
     pairs += [(gen[i], gen[j], f'generic#{i}~generic#{j}', False) for i, j in ((0, 1), (1, 2), (2, 2), (2, 0))]
     pairs += [(gen[0], Rc[9], 'generic#0~cube[9]', False), (Rc[4], gen[1], 'cube[4]~generic#1', False)]
